@@ -64,8 +64,13 @@ def key(c):
 
 
 def filtered_oracle(allowed):
+    from . import common
     def f(c, o):
-        r = oracle(c, o)
+        common.ALLOW[0] = list(allowed)      # violations of other classes do not end the oracle early (common.emit)
+        try:
+            r = oracle(c, o)
+        finally:
+            common.ALLOW[0] = None
         if r is None:
             return None
         suffix = r["cls"].split(":", 1)[1] if ":" in r["cls"] else r["cls"]
